@@ -2,6 +2,8 @@
 # seedtest.sh <seed-dir> <worktree> <checks...>: confirm a seeded change (tests pass with it,
 # demo fails with it and passes without it), then run the given checks against the
 # worktree with the change applied. Output under <seed-dir>/log/.
+# SKIP_CONFIRM=1: only (re-)run the checks. VERIF_SNAP=<dir>: run the checks of a frozen copy
+# of /verif (so that /verif can be edited meanwhile).
 set -u
 SEED=$1; WT=$2; shift 2
 export GOFLAGS=-mod=mod GOPROXY=off GOSUMDB=off GOTOOLCHAIN=local
@@ -32,7 +34,7 @@ else
 fi
 for c in "$@"; do
   OUT=$(mktemp -d /dev/shm/seedout-XXXXXX)
-  VERIF_REPO=$WT VERIF_OUT=$OUT /verif/check $c --tier quick > $SEED/log/check_$c.txt 2>&1
+  VERIF_REPO=$WT VERIF_OUT=$OUT ${VERIF_SNAP:-/verif}/check $c --tier quick > $SEED/log/check_$c.txt 2>&1
   echo "check $c: exit $? ; $(grep -c '^VIOLATION' $SEED/log/check_$c.txt) violation lines" >> $SEED/log/confirm.txt
   rm -rf $OUT
 done
